@@ -84,7 +84,9 @@ impl OperationControl for Repeat {
     ) -> Box<dyn Iterator<Item = usize> + 'a> {
         let mut iterators: Vec<Box<dyn Iterator<Item = usize>>> = Vec::new();
         let mut positions = Vec::new();
-        let bound = self.max.min(matcher.search.len() - position + 1);
+        let bound = self
+            .max
+            .min(matcher.search.len().saturating_sub(position) + 1);
         let mut p = position;
         if self.greedy {
             // Prime the arrays first with iterators up to the maximum length,
